@@ -30,11 +30,12 @@ RULE = (
     "widget-tree recipes from the typed grammar in vmon/gen/trees.py (33 bundled classes: 15 leaves, 12 decorations, 6 containers; "
     "documented-valid option combinations only) in three phases: (1) every leaf class alone x 3 encodings x 2 (quick) / 6 (thorough) "
     "seeded variants; (2) every decoration / container class as the root x 3 encodings x 3 / 12 variants of depth 1-2; (3) seeded random "
-    "trees of depth 1..3 (quick, <=110 per shard) / 1..5 (thorough, <=1200 per shard).  Encodings utf8 / wide(euc-jp) / narrow(ascii), "
+    "trees of depth 1..3 (quick, <=110 per shard) / 1..5 (thorough, <=500 per shard).  Encodings utf8 / wide(euc-jp) / narrow(ascii), "
     "str and bytes texts (ASCII, Latin-1, double-width CJK, zero-width combining, emoji, DEC line drawing).  Every tree is driven in every "
     "sizing mode root.sizing() reports x sizes box {1,2,3,5,8,13,40}^2 (all 49 in thorough and in phase 1; 1x1 plus 9 seeded others in "
     "quick), flow cols 1..13 and 40, fixed () x focus False/True.  One case = (encoding, tree, size, focus); distinct = distinct "
-    "descriptors; non-trivial = not rejected by the validity filter (urwid emitted no WidgetWarning).  Monitor M1 additionally judges the "
+    "descriptors; non-trivial = not rejected by the validity filter (urwid emitted no WidgetWarning).  Every evaluation builds a fresh "
+    "tree from the recipe and clears CanvasCache, so a verdict never depends on earlier renders.  Monitor M1 additionally judges the "
     "canvas of every inner widget at the size it was handed (m1_judged).  The op-count bounds are reached before the time budget on an "
     "unloaded machine, so a run explores the same cases every time; under load it explores a prefix of them."
 )
@@ -567,7 +568,7 @@ def run(ctx):
     seen_prekeys = Counter()
     max_per_prekey = 2
     box_subset = ctx.pick(10, 49)
-    max_trees = ctx.pick(110, 1200)  # op-count bound: reached before the time budget on an unloaded machine => same cases every run
+    max_trees = ctx.pick(110, 500)  # op-count bound: reached before the time budget on an unloaded machine => same cases every run
 
     def sizes_for(smode):
         if smode != "box" or box_subset >= 49:
